@@ -392,7 +392,9 @@ func runReqs() {
 		c.Tally(q.kind + "/" + q.entry + "/" + q.class + "/" + verdict)
 		twin["ok"], twin["used"], twin["alloc"] = rp.OK, rp.Used, rp.Alloc
 		coq := ""
-		if q.kind == "D" {
+		if q.kind == "D" && len(q.b) > 400000 {
+			// Go side only
+		} else if q.kind == "D" {
 			coq = fmt.Sprintf("CDec %s %s %s %d %s %d", coqEntry[q.entry], common.CoqBytes(q.b), common.CoqBool(rp.OK), rp.Used, common.CoqBool(rp.FB), rp.Alloc)
 			if r := float64(rp.Alloc) / float64(allocBound(len(q.b))); r > maxRatio {
 				maxRatio = r
@@ -703,12 +705,19 @@ func main() {
 		dec("tx", "chunked-script-short", bigScriptTx(l, 0, 0x51))
 	}
 
+	// well-formed transactions whose script is really there and large (Go side only: verdict, bytes consumed and the measured
+	// allocation against the linear bound; a buffer that is regrown by a fixed step costs l^2/step and only shows from about 1 MiB)
+	for _, l := range []int{1 << 20, 3 << 19} {
+		dec("tx", "chunked-script-large", bigScriptTx(l, l, 0x51))
+		dec("tx", "chunked-script-large-short", bigScriptTx(l, l-1, 0x51))
+	}
+
 	// 5. JSON documents
 	for _, d := range jsondoc.All(r, big, lastStd) {
 		jdoc(d.Entry, d.Class, d)
 	}
 
 	runReqs()
-	c.Stats.Rule = "binary: regression corpus; random bytes (bare and behind a plausible header) into every entry point; every truncation offset and every single-bit flip of valid std+extended transactions, lists, inputs, outputs; a 1-in/1-out template with each count/length varint replaced by {2^16,2^31,2^32,2^40,2^63,2^64-1, and counts whose product with an element size of 9/33/37/41/45/149 (or 8/32/36/40) bytes wraps to a small number} (9-byte and shortest encodings; rest of the template / nothing / 40 filler bytes following; lengths 2^20..2^64-1 with 4097 / 5000 / 9000 bytes present) and by every truncated varint (ff+0..7, fe+0..3, fd+0..1 bytes); script lengths around the 4096-byte chunking fully/partly supplied. Each input is decoded through bytes.Reader, iotest.OneByteReader, a 1..7-byte chunk reader, DataErrReader and HalfReader (results must agree), plus NewTxFromStream/NewTxFromBytes for transactions. JSON: documents for *bt.Tx, tx.NodeJSON(), txs.NodeJSON(), output.NodeJSON(), *bt.UTXO, utxo.NodeJSON() with each optional object missing/null/mistyped, bad/odd hex, one- and two-character hex strings, 0x prefixes, null list elements, hostile tx hex. distinct = distinct (entry point, input); non-trivial = binary inputs on which the decoder consumed at least one byte, JSON documents that encoding/json passes on to the library code"
+	c.Stats.Rule = "binary: regression corpus; random bytes (bare and behind a plausible header) into every entry point; every truncation offset and every single-bit flip of valid std+extended transactions, lists, inputs, outputs; a 1-in/1-out template with each count/length varint replaced by {2^16,2^31,2^32,2^40,2^63,2^64-1, and counts whose product with an element size of 9/33/37/41/45/149 (or 8/32/36/40) bytes wraps to a small number} (9-byte and shortest encodings; rest of the template / nothing / 40 filler bytes following; lengths 2^20..2^64-1 with 4097 / 5000 / 9000 bytes present) and by every truncated varint (ff+0..7, fe+0..3, fd+0..1 bytes); script lengths around the 4096-byte chunking fully/partly supplied; scripts of 1 MiB and 1.5 MiB fully supplied and one byte short (Go side only). Each input is decoded through bytes.Reader, iotest.OneByteReader, a 1..7-byte chunk reader, DataErrReader and HalfReader (results must agree), plus NewTxFromStream/NewTxFromBytes for transactions. JSON: documents for *bt.Tx, tx.NodeJSON(), txs.NodeJSON(), output.NodeJSON(), *bt.UTXO, utxo.NodeJSON() with each optional object missing/null/mistyped, bad/odd hex, one- and two-character hex strings, 0x prefixes, null list elements, hostile tx hex. distinct = distinct (entry point, input); non-trivial = binary inputs on which the decoder consumed at least one byte, JSON documents that encoding/json passes on to the library code"
 	c.Finish()
 }
